@@ -125,38 +125,54 @@ def vt(src, q_cases, q_budget, t_cases, t_budget, shards=8, size=100, **kw):
     return d
 
 PROPS["C08"] = {
-    "targets": [vt("props/C08_semaphore_vt.cpp", 15000, 60, 150000, 600)],
+    "targets": [vt("props/C08_semaphore_vt.cpp", 15000, 60, 150000, 600),
+                seq("props/C08_osthreads_stress.cpp", 80, 40, 2000, 600, shards=2, engine="E-stress")],
     "rule": "case = semaphore kind (counting_semaphore<>, counting_semaphore<1>, sliding_semaphore) x initial count x 2..4 logical threads "
             "with scripts over release(n)/acquire/try_acquire/try_acquire_for(inf|finite)/try_acquire_until(finite) (sliding: "
             "wait(u)/signal(l)/try_wait) x a schedule tape that decides every context switch at hook points and agent operations "
             "(the harness owns the schedule and the clock: a finite deadline passes only when the tape says so); supply covers every "
             "acquisition attempt by construction; non-trivial iff >=1 acquirer really blocked and was released later or a timed acquire "
-            "slept before the release; distinct by hash of (scripts, schedule position)",
+            "slept before the release; distinct by hash of (scripts, schedule position). Second target (plain OS threads, E-stress, no runtime, the "
+            "real default execution agent): semaphore kind x 1..2 releaser std::threads x 2..4 acquirer std::threads in {acquire, try_acquire polling, "
+            "try_acquire_for(1 year), try_acquire_until(now + 1 year)} (sliding: wait(u) / try_wait(u) polling against one signaller) x 1..3 permits per "
+            "acquirer and round x release batches 1..3 x 300..20000 rounds, each round published as soon as all acquirers acknowledged the previous "
+            "one; oracle: shadow counter incremented before release and decremented after a successful acquire never goes negative and ends at 0, "
+            "a year-long timed acquire never fails, no acquirer stays inside acquire for 10 s without any progress while permits are available, "
+            "release()/signal() return, sliding wait(u) returns only after lower limit u - max_difference was signalled; non-trivial iff >=2 acquirers "
+            "or >=1000 rounds",
     "floor": {"quick": 200, "thorough": 2000},
     "assumptions": ["sequentially consistent interleavings at hook/agent granularity only (no weak-memory effects)",
                     "wake-up before suspend is modelled as a pending token (the meaning the task path gives it)"],
 }
 LEVEL_TEXT["C08"] = {
     "text": "The real semaphores run on harness-owned virtual threads: the schedule is part of the generated case, so each execution is deterministic, shrinkable and all-blocked states are detected exactly. Oracles: permit ledger at every success (acquisitions <= initial + released), drain equality at the end, exact deadlock detection under sufficient supply, and for timed acquires: false only if the scheduler fired that deadline (the harness owns the clock). Exploration of schedules by generated tapes.",
-    "note": "Schedules are sampled from generated tapes (tens of thousands per run), not exhausted; interleavings are at hook/agent-operation granularity and sequentially consistent.",
+    "note": "Schedules are sampled from generated tapes (tens of thousands per run), not exhausted; interleavings are at hook/agent-operation granularity and sequentially consistent. A second target (E-stress) runs the semaphores from plain std::threads through execution_base's real default agent (the OS-thread half of the quantifier); the schedule is not owned there, a miss proves nothing.",
     "technique": "property-based testing with harness-owned deterministic schedules (virtual threads), ledger and deadlock oracles",
 }
 
 PROPS["C09"] = {
-    "targets": [vt("props/C09_latch_barrier_vt.cpp", 8000, 60, 100000, 600)],
+    "targets": [vt("props/C09_latch_barrier_vt.cpp", 8000, 60, 100000, 600),
+                seq("props/C09_osthreads_stress.cpp", 120, 40, 4000, 600, shards=2, engine="E-stress")],
     "rule": "case = primitive in {latch, barrier, event, call_once} x 2..4 logical threads x scripts (latch: count_down(k)*, then wait / "
             "arrive_and_wait(k) / try_wait polling, sum of decrements == count; barrier: expected = threads+extra (thread 0 stands in for "
             "1+extra via arrive(k)), 1..6 or 130 phases (uint8 phase wrap), per thread and phase arrive_and_wait / arrive+wait(token) / "
             "arrive_and_drop, completion function instrumented; event: set/reset/set.. vs waiters; call_once: callers with the first j "
             "attempts throwing) x schedule tape deciding every switch at hook points (latch notify loop, barrier ticket CAS) and agent "
             "operations; non-trivial iff latch/event waiter really blocked, or barrier expected count is not a power of two with >=3 phases "
-            "or has a drop or crosses the phase wrap, or call_once has a throwing attempt with >=2 callers; distinct by hash of the case",
+            "or has a drop or crosses the phase wrap, or call_once has a throwing attempt with >=2 callers; distinct by hash of the case. Second target "
+            "(plain OS threads, E-stress, no runtime, the real default execution agent): primitive x 2..5 std::threads x 300..10000 rounds started "
+            "together from a harness spin barrier with generated skews (latch: a fresh latch per round, per thread count_down(0..2) then wait / "
+            "arrive_and_wait(1) / try_wait polling / nothing; barrier: one barrier for all phases, arrive_and_wait or arrive+wait(token) per thread, "
+            "optionally one thread arrive_and_drops at a generated phase, instrumented completion function; event: one setter (set, wait for the "
+            "waiters to leave, reset) vs waiters; call_once: a fresh once_flag per round, the first 0..2 attempts throw); shadow state is written "
+            "before the call that publishes and read after the call that waits; a state where every unfinished thread is inside a waiting call of "
+            "the primitive or parked behind one for 10 s is a lost wake-up; non-trivial iff >=3 threads or >=2000 rounds",
     "floor": {"quick": 200, "thorough": 2000},
     "assumptions": ["sequentially consistent interleavings at hook/agent granularity", "a participant waits for its arrival token before arriving again"],
 }
 LEVEL_TEXT["C09"] = {
     "text": "The real latch, barrier, event and call_once run on harness-owned virtual threads under generated schedules; oracles are history invariants over harness-side sequence counters: no wait/arrive_and_wait returns before all decrements have at least started, per barrier phase every departure follows exactly one completion call which follows all expected arrivals (drops reduce the next phase's expectation), event waiters return only after a set started and all return, call_once body succeeds exactly once with exceptions reaching only their own caller; all-blocked states are exact deadlocks.",
-    "note": "Schedules sampled by generated tapes; SC interleavings at hook/agent granularity; barrier tree collisions depend on thread-id hashing, which is whatever the OS threads get.",
+    "note": "Schedules sampled by generated tapes; SC interleavings at hook/agent granularity; barrier tree collisions depend on thread-id hashing, which is whatever the OS threads get. A second target (E-stress) runs the primitives from plain std::threads through execution_base's real default agent (the OS-thread half of the quantifier) with the same shadow-state invariants; the schedule is not owned there, a miss proves nothing.",
     "technique": "property-based testing with harness-owned deterministic schedules (virtual threads), history-invariant oracles",
 }
 
